@@ -74,8 +74,8 @@ CHECKS = {
    text="Kernel: the real filterIgnored / couldHaveMatched / parseDirectives / lineIgnore.match / fileIgnore.match (with strings.ToLower and filepath.Match interpreted) are executed on every combination of "
         "1 problem x 1 directive (70 check lists incl. globs with *, ? and [...], wrong case, U1000, disabled and unknown checks; 3 reason shapes; enabled/disabled analyzers) and 2 problems x 1-2 directives in both orders; "
         "asserted against the property's predicate: suppressed set, pass-through of everything else in order, malformed-directive errors, useless-directive reports, directive diagnostics never suppressed. "
-        "Attachment: 11 placements of a //lint:ignore comment run through the real go/parser, ast.NewCommentMap / lint.ParseDirectives and the runner's serializeDirective inside the engine, the problem on every line of the file.",
-   note="Finite vocabulary explored exhaustively by forking (solver decides feasibility). Outside: comment placements other than the 11 listed, //line-remapped positions, U1000's in-graph ignores, whitespace-only reasons, globs in the useless-directive clause. "
+        "Attachment: 11 placements of a //lint:ignore comment run through the real go/parser, ast.NewCommentMap / lint.ParseDirectives and the runner's serializeDirective inside the engine, the problem on every line of the file. U1000 clause: on the generated package skeleton, //lint:ignore U1000 above a function / variable / constant gives every object the verdict it has when used code refers to the ignored object (real parser, type checker, ParseDirectives and unused graph in the engine).",
+   note="Finite vocabulary explored exhaustively by forking (solver decides feasibility). Outside: comment placements other than the 11 listed, //line-remapped positions, U1000 ignores on types, whitespace-only reasons, globs in the useless-directive clause. "
         "One known finding (order-dependence of couldHaveMatched around U1000) is listed in known_findings.txt.",
    technique="bounded symbolic execution of go/ssa + SMT feasibility, native replay of models",
    design="3/C10"),
